@@ -190,3 +190,23 @@ def _(h):
     a, b, c = h.angle('a'), h.angle('b'), h.angle('c')
     R = h.arr(eul_ref(h, a, b, c))
     h.same('SO3.eul(flip=True)', SO3(R, check=False).eul(flip=True), base.tr2eul(R, flip=True))
+
+
+for _o in ('zyx', 'xyz', 'yxz'):
+    @claim(f'class-rpy-multi:{_o}')
+    def _(h, o=_o):
+        """the accessor on an object holding two rotations: each column rebuilds its own rotation (order and unit honoured)"""
+        Rs = []
+        for i in range(2):
+            r, p, y = h.angle(f'r{i}', -1.5, 1.5), h.angle(f'p{i}', -1.5, 1.5), h.angle(f'y{i}', -1.5, 1.5)
+            Rs.append(h.arr(rpy_ref(h, r, p, y, o)))
+        for cls, mk in ((SO3, lambda R: R), (SE3, lambda R: hom(h, R, [1, 2, 3]))):
+            X = cls([mk(R) for R in Rs], check=False)
+            a = np.asarray(X.rpy(order=o))
+            h.true(f'{cls.__name__}: shape (3, 2)', a.shape == (3, 2))
+            if a.shape != (3, 2):
+                continue
+            for i in range(2):
+                h.eq(f'{cls.__name__}: rebuild element {i}', base.rpy2r(a[:, i], order=o), Rs[i], tol=1e-6)
+            d = np.asarray(X.rpy(order=o, unit='deg'))
+            h.eq(f'{cls.__name__}: degrees', d, a * (180 / math.pi), tol=1e-6, scale=180)
